@@ -83,13 +83,18 @@ pub fn judge_case(c: &Case) -> Obs {
             _ => "script-inspects",
         });
     }
+    // the comparison is between two runs of lace and reads the machine through hook H1: a third of
+    // the pairs run in the normal (non-minimal) output mode, whose views and tables are code that
+    // the minimal mode skips (REG's listing differs between the modes, but equally in both runs)
+    let minimal = obs.key % 3 != 0;
+    obs.label(if minimal { "output-mode-minimal" } else { "output-mode-normal" });
     let plain = lacebox::run_session(
         Load::Source { text: p.text.clone(), debugger: None },
-        RunSpec { stack: p.built.stack, minimal: true, fuel: budget + 2, input: input.clone() },
+        RunSpec { stack: p.built.stack, minimal, fuel: budget + 2, input: input.clone() },
     );
     let Some(po) = outcome_of(&mut obs, "C09", &plain, &shown) else { return obs };
     let fuel = 8 * (rr.steps + cmds.len() as u64 + 2) + 64;
-    let dbg = run_lace_arg(&p, &script, &input, fuel);
+    let dbg = run_lace_mode(&p, &script, &input, fuel, minimal);
     let Some(d) = outcome_of(&mut obs, "C09", &dbg, &shown) else { return obs };
     if d.stop == Stop::OutOfFuel {
         // the plain run stops after rr.steps instructions; a debugged run that does not come back
@@ -102,7 +107,7 @@ pub fn judge_case(c: &Case) -> Obs {
     }
     // how much happened while attached
     let err = String::from_utf8_lossy(&d.stderr).to_string();
-    let pauses = err.matches("Reached::").count() + err.matches("OutOfBounds::ProgramCounter").count();
+    let pauses = err.matches("Reached::").count() + err.matches("OutOfBounds::ProgramCounter").count() + err.matches("Pausing execution").count();
     let resumes = cmds.iter().filter(|c| c.is_resuming()).count();
     obs.nontrivial = resumes >= 2 && pauses >= 1 && rr.steps >= 3;
     if !p.breaks.is_empty() {
@@ -141,6 +146,38 @@ pub fn judge_case(c: &Case) -> Obs {
         obs.set_fail("C09:input-consumption-differs", format!("plain run left {} input bytes, debugged run {}\n{shown}", po.input_left, d.input_left));
     } else if d.execs != po.execs {
         obs.set_fail("C09:instruction-count-differs", format!("plain run executed {} instructions, debugged run {}\n{shown}", po.execs, d.execs));
+    }
+    // The same session with the script on standard input, followed by the program's input: when
+    // nothing resumes execution before `quit`, every input trap runs after the debugger has read
+    // its last line, so the program must find its input right behind that line (the debugger may
+    // not read ahead on the shared stream) and everything must again equal the plain run.
+    if obs.fail.is_none() && c.explicit_quit && resumes == 0 && rr.consumed > 0 && !script.contains('\0') {
+        obs.label("script-and-program-input-share-stdin");
+        let mut stdin = script.clone().into_bytes();
+        stdin.push(b'\n');
+        let script_len = stdin.len();
+        stdin.extend(&input);
+        let s2 = lacebox::run_session(
+            Load::Source { text: p.text.clone(), debugger: Some(None) },
+            RunSpec { stack: p.built.stack, minimal, fuel, input: stdin },
+        );
+        let Some(d2) = outcome_of(&mut obs, "C09", &s2, &shown) else { return obs };
+        let _ = script_len;
+        if d2.stop != po.stop || d2.stdout != po.stdout || d2.fin != po.fin || d2.input_left != po.input_left {
+            obs.set_fail(
+                "C09:shared-stdin-session-differs",
+                format!(
+                    "script on standard input followed by the program's input: {:?}, output {:?}, {} input bytes left; plain run: {:?}, output {:?}, {} left\n{shown}\n--- debugger output ---\n{}",
+                    d2.stop,
+                    String::from_utf8_lossy(&d2.stdout),
+                    d2.input_left,
+                    po.stop,
+                    String::from_utf8_lossy(&po.stdout),
+                    po.input_left,
+                    clip(&String::from_utf8_lossy(&d2.stderr))
+                ),
+            );
+        }
     }
     obs
 }
@@ -213,7 +250,7 @@ impl Prop for C09 {
     fn rule(&self) -> &'static str {
         "ProgGen programs and (1 in 6) arbitrary word images that terminate under RefVM (all endings incl. error exits and jumps to 0xFFFF, self-modifying code, .break directives, input-reading programs) x scripts of 0-13 commands over {step, step into k, step out, continue, break add/remove/list, print, registers, assembly, echo, help} with generated valid and invalid arguments, ended by `quit` or by end of input. \
          Oracle: program output, exit status, input consumption, executed-instruction count and the full final snapshot (registers, PC, CC, all memory) of the debugged run equal those of the plain run of the same source (both by lace; the plain run is independently checked against RefVM in C03). \
-         A sample of the same pairs also runs through the real binary (`lace debug --minimal --command <script>` vs `lace run --minimal`: stdout and exit status byte-identical). Non-trivial: the script resumes execution at least twice and the debugger pauses at least once (breakpoint, HALT, step complete, bounds). Distinct = hash(source, script, input)."
+         When the script resumes nothing before `quit` and the program reads input, the session is repeated with the script on standard input followed by the program's input (shared stream): it must again equal the plain run, byte for byte of consumed input. A sample of the same pairs also runs through the real binary (`lace debug --minimal --command <script>` vs `lace run --minimal`: stdout and exit status byte-identical). Non-trivial: the script resumes execution at least twice and the debugger pauses at least once (breakpoint, HALT, step complete, bounds). Distinct = hash(source, script, input)."
     }
     fn assumptions(&self) -> Vec<String> {
         vec![
